@@ -1913,6 +1913,10 @@ fn try_bitpacking(
             };
             decode_plans.push((decode_plan, plan_type.decoded()));
 
+            if total_width + bits(adjusted_max) > 63 {
+                planner.reset();
+                return Ok(None);
+            }
             largest_key += adjusted_max << total_width;
             total_width += bits(adjusted_max);
         } else {
